@@ -50,7 +50,26 @@ def setup(ctx):
 CAP = 10 * 1024 * 1024
 
 CHARSETS_KNOWN = ["utf-8", "UTF-8", "iso-8859-1", "latin-1", "utf-16", "utf-16-le", "shift_jis", "koi8-r", "cp1252", "ascii", "big5", "euc-jp", "utf-32", "mac-roman", "gb2312", "iso-8859-15", "utf_8", "U8"]
-CHARSETS_UNKNOWN = ["klingon", "utf-99", "x-unknown", "", "utf8mb4", "binary", "none", "iso-8859-99", "\"\"", "utf-8; q=1"]
+
+
+def _all_python_labels():
+    """Every codec label this Python knows: alias table keys and values, with '-' spellings; text
+    encodings or not (rot13, base64, 'undefined', idna, punycode, ... are labels too)."""
+    import encodings.aliases
+    import pkgutil
+
+    names = set(encodings.aliases.aliases) | set(encodings.aliases.aliases.values())
+    names |= {m.name for m in pkgutil.iter_modules(encodings.__path__) if m.name not in ("aliases",)}
+    out = set()
+    for n in names:
+        out.add(n)
+        out.add(n.replace("_", "-"))
+    return sorted(out)
+
+
+CHARSETS_ALL = _all_python_labels()
+CHARSETS_UNKNOWN = ["klingon", "utf-99", "x-unknown", "", "utf8mb4", "binary", "none", "iso-8859-99", "\"\"", "utf-8; q=1",
+                    "utf-8\x00", "a\x00b", "\x00", "../aliases", "x" * 300, "é"]
 TEXTS = ["", "hello\n", "# Titre\nligne é à ü\n", "日本語のテキスト\n", "Привет\r\n", "a" * 3000]
 
 
@@ -62,12 +81,14 @@ def gen_stream(rng):
         text = rng.choice(TEXTS)
         kind = rng.random()
         if kind < 0.35:
-            cs = rng.choice(CHARSETS_KNOWN)
+            cs = rng.choice(CHARSETS_KNOWN) if rng.random() < 0.4 else rng.choice(CHARSETS_ALL)
             try:
                 body = text.encode(cs)
                 cls = "known"
-            except (UnicodeEncodeError, LookupError):
-                body = text.encode("utf-8")
+                if not isinstance(body, bytes):
+                    raise LookupError(cs)
+            except Exception:  # noqa: BLE001 - some codecs raise anything
+                body = text.encode("utf-8") if rng.random() < 0.7 else bytes(rng.getrandbits(8) for _ in range(rng.choice([1, 7, 40])))
                 cls = "known-mismatch"
             q = rng.choice(["", "\"", "'"])
             sep = rng.choice(["; charset=", ";charset=", "; CHARSET=", ";  charset=", "; lang=en; charset=", "; charset = "])
